@@ -25,10 +25,13 @@ Open Scope string_scope.
 """
 
 
-def blackbox(ctx, A, fn, in_shape, in_dtype, exact, key, unit, what_prefix):
-    """returns True if a concrete non-linearity was found (and reported)."""
+def blackbox(ctx, A, fn, in_shape, in_dtype, exact, key, unit, what_prefix, cplx=None):
+    """returns True if a concrete non-linearity was found (and reported).
+    cplx: scalars of the field the map is linear over -- complex for maps between complex spaces, real for maps between
+    a real and a complex space (such a map, e.g. the adjoint y -> Re(A^H y) of an R -> C operator, is real-linear only)."""
     rng = ctx.rng
-    cplx = L.is_complex(in_dtype)
+    if cplx is None:
+        cplx = L.is_complex(in_dtype)
     tol = 0.0 if exact else (1e-4 if not L.is_double(in_dtype) else 1e-9)
     found = False
     try:
@@ -103,7 +106,7 @@ def run(ctx: Ctx):
                 eqs, out, unsup = J.dump(fn, shp, dt)
             except Exception as ex:
                 ctx.notes.append(f"jaxpr of {e.cls} {which} not available ({type(ex).__name__}); black-box only")
-                blackbox(ctx, A, fn, shp, dt, e.kind == L.EXACT and L.is_double(dt), key, e.cls, which)
+                blackbox(ctx, A, fn, shp, dt, e.kind == L.EXACT and L.is_double(dt), key, e.cls, which, cplx=cplx and L.is_complex(dt))
                 continue
             for u in unsup:
                 unsupported_all[u] = unsupported_all.get(u, 0) + 1
@@ -128,7 +131,7 @@ def run(ctx: Ctx):
     n_acc = 0
     for (key, which, cplx, eqs, out, e, fn, shp, dt, unsup), code in zip(progs, codes):
         exact = e.kind == L.EXACT and L.is_double(dt)
-        found = blackbox(ctx, None, fn, shp, dt, exact, key, e.cls, which + " map")
+        found = blackbox(ctx, None, fn, shp, dt, exact, key, e.cls, which + " map", cplx=cplx and L.is_complex(dt))
         if code == 0:
             n_acc += 1
             ctx.obligation(True, "lin_check")
@@ -142,7 +145,7 @@ def run(ctx: Ctx):
         if not found:
             # targeted search: more random vectors
             for _ in range(6):
-                if blackbox(ctx, None, fn, shp, dt, exact, key, e.cls, which + " map"):
+                if blackbox(ctx, None, fn, shp, dt, exact, key, e.cls, which + " map", cplx=cplx and L.is_complex(dt)):
                     found = True
                     break
         if not found:
@@ -230,12 +233,14 @@ def presented_as_linear(ctx):
                "abs": Operator(input_shape=(n,), eval_fn=lambda x: snp.abs(x) + 0 * x, input_dtype=dt)}
         for name in sorted(pool):
             for nl in sorted(nls):
-                for op in ("add", "sub", "radd", "rsub", "comp", "rcomp"):
+                for op in ("add", "sub", "radd", "rsub", "comp", "rcomp", "comp2", "matmul2", "gramcomp"):
                     key = {"unit": "derived", "linear": name, "nonlinear": nl, "op": op, "dtype": np.dtype(dt).name}
                     A, F = pool[name](), nls[nl]
                     try:
                         R = {"add": lambda: A + F, "sub": lambda: A - F, "radd": lambda: F + A, "rsub": lambda: F - A,
-                             "comp": lambda: A(F), "rcomp": lambda: F(A)}[op]()
+                             "comp": lambda: A(F), "rcomp": lambda: F(A),
+                             # an ALREADY composed linear operator applied to / matmul'ed with the non-linear one
+                             "comp2": lambda: (A @ A)(F), "matmul2": lambda: (A @ A) @ F, "gramcomp": lambda: (A.T @ A) @ F}[op]()
                     except Exception:
                         continue
                     ctx.count("derived-with-nonlinear", key)
@@ -251,14 +256,21 @@ def derived_closures(ctx):
     n = 3
     for dt in (np.complex128, np.float64):
         pool = L.leaf_pool(random.Random(ctx.seed + 11), n, dt)
+        if L.is_complex(dt):
+            import scico.numpy as snp
+            from scico import linop
+            dre = L.rand_dyadic_np(random.Random(ctx.seed + 12), (n,))
+            pool = dict(pool)
+            pool["Diagonal(real diagonal, complex space)"] = lambda: linop.Diagonal(snp.array(dre), input_dtype=dt)
         names = sorted(pool)
         cs = [1.0 + 2.0j, -0.5j] if L.is_complex(dt) else [-0.5]
         for name in names:
             forms = [("mul", lambda A, c: A * c), ("rmul", lambda A, c: c * A), ("div", lambda A, c: A / c), ("neg", lambda A, c: -A)]
             other = pool[ctx.rng.choice(names)]
             forms += [("add", lambda A, c, o=other: A + o()), ("sub", lambda A, c, o=other: A - o()), ("comp", lambda A, c, o=other: A(o()))]
+            forms += [("conj", lambda A, c: A.conj()), ("H", lambda A, c: A.H), ("gram", lambda A, c: A.gram_op)]
             for fname, mk in forms:
-                if ctx.quick and fname in ("neg", "rmul") and ctx.rng.random() < 0.5:
+                if ctx.quick and fname in ("neg", "rmul", "conj") and ctx.rng.random() < 0.5:
                     continue
                 c = ctx.rng.choice(cs)
                 key = {"unit": "derived-closures", "class": name, "form": fname, "scalar": str(c), "dtype": np.dtype(dt).name,
@@ -274,8 +286,10 @@ def derived_closures(ctx):
                 except Exception:
                     continue            # rejected / failing combinations are C05's and C01's findings
                 ctx.count("derived-closures", key)
+                both = L.is_complex(B.input_dtype) and L.is_complex(B.output_dtype)
                 for vname, fn, shp, vdt in views:
-                    if blackbox(ctx, None, fn, shp, vdt, False, key, "derived:" + name, f"{vname} of the {fname} form"):
+                    if blackbox(ctx, None, fn, shp, vdt, False, key, "derived:" + name, f"{vname} of the {fname} form",
+                                cplx=both and L.is_complex(vdt)):
                         break
 
 
@@ -293,6 +307,7 @@ def replay(ctx: Ctx, rec):
     c2.known = []
     bad = False
     for which, fn, shp, dt in (("forward", A, A.input_shape, A.input_dtype), ("adjoint", A.adj, A.output_shape, A.output_dtype)):
+        both = L.is_complex(A.input_dtype) and L.is_complex(A.output_dtype)
         for _ in range(8):
-            bad |= blackbox(c2, None, fn, shp, dt, e.kind == L.EXACT and L.is_double(dt), key, e.cls, which)
+            bad |= blackbox(c2, None, fn, shp, dt, e.kind == L.EXACT and L.is_double(dt), key, e.cls, which, cplx=both and L.is_complex(dt))
     return not bad
